@@ -6,20 +6,20 @@ import random
 
 ID = "C07"
 LEVEL = "exploration"
-TECHNIQUE = "runtime monitoring on a virtual-time simulated network: scripted raw notifier (Observe values around 2^23 / 2^24 wrap, inter-arrival gaps around 128 s, CON/NON, duplicates, all permutations of up to 5 notifications, back-to-back deliveries in one loop iteration, a terminating response or transport error at every position; block-wise representations: block 0 of every version pushed with the Observe option, the later blocks fetched by the client and answered from the version current at that moment with an ETag per version, versions replaced at offsets of 0 to 5 ms into a transfer, pushes delayed and repeated by the network; the application cancelling the observation before the first response, while its blocks are fetched, right after it, between and inside deliveries); oracle = reference implementation of the section 3.4 predicate over (Observe value, virtual arrival time) applied to the recorded callback / iteration history, whole-representation comparison of what is handed over, plus wire reactions after the end, where 'after' is the position in the wire log relative to the arrival that ended the observation or to the moment the application was told / said that it is over"
-LEVEL_TEXT = "All permutations of notification sequences up to length 5 over boundary Observe values and arrival gaps (exhaustive per value set) and sampled longer ones are delivered to the real client through both consumer interfaces and both request paths; the delivered sequence, the terminal signal and the reactions after the end are judged against the reference predicate. Block-wise observations (first response and notifications of 1 to 4 blocks, representation replaced during a transfer or not, all ends: terminating response, transport error, a transfer that saw two representations reported as the request's / observation's error, cancellation by the application at five kinds of moments) are sampled per seed plus one deterministic script per (mechanism, request path, consumer); every confirmable notification after a signalled end must be answered with a Reset."
+TECHNIQUE = "runtime monitoring on a virtual-time simulated network: scripted raw notifier (Observe values around 2^23 / 2^24 wrap, inter-arrival gaps around 128 s, CON/NON, duplicates, all permutations of up to 5 notifications, back-to-back deliveries in one loop iteration, a terminating response or transport error at every position; block-wise representations: block 0 of every version pushed with the Observe option, the later blocks fetched by the client and answered from the version current at that moment with an ETag per version, versions replaced at offsets of 0 to 5 ms into a transfer, pushes delayed and repeated by the network; the application cancelling the observation before the first response, while its blocks are fetched, right after it, between and inside deliveries; the peer taking 0 / 3 ms / 0.5 s over each block request, with confirmable and non-confirmable notifications (of the same or a new representation) arriving inside the first response's block transfer after the application's cancel); oracle = reference implementation of the section 3.4 predicate over (Observe value, virtual arrival time) applied to the recorded callback / iteration history, whole-representation comparison of what is handed over, plus wire reactions after the end, where 'after' is the position in the wire log relative to the arrival that ended the observation or to the moment the application was told / said that it is over"
+LEVEL_TEXT = "All permutations of notification sequences up to length 5 over boundary Observe values and arrival gaps (exhaustive per value set) and sampled longer ones are delivered to the real client through both consumer interfaces and both request paths; the delivered sequence, the terminal signal and the reactions after the end are judged against the reference predicate. Block-wise observations (first response and notifications of 1 to 4 blocks, representation replaced during a transfer or not, all ends: terminating response, transport error, a transfer that saw two representations reported as the request's / observation's error, cancellation by the application at six kinds of moments, notifications arriving inside the first response's block transfer after such a cancellation) are sampled per seed plus one deterministic script per (mechanism, request path, consumer); every confirmable notification after a signalled end must be answered with a Reset."
 LEVEL_NOTE = "Trusted: the freshness predicate and the judge in checks/c07.py, harness/vloop.py (time.time is virtual), simnet, refcodec. Exact delivery of every fresh notification is not demanded (the iterator is lossy by design); only subsequence + freshness + 'nothing fresher left undelivered'. Whether a block-wise observation may end with the error of a transfer that saw two representations (ResourceChanged) the statement leaves open: such ends are counted (notification_assembly_failed_end), accepted only when the wire log shows a transfer whose blocks carry different ETags, and from then on judged like every other end. Block counts never decrease along one script and a 4.04 is kept clear of transfers (a non-block-wise answer to a block fetch is C05's subject)."
 RULE = (
-    "one case = one observation: (request path raw/default, consumer callback/iteration, first response with/without Observe, sequence of (Observe value, gap, CON/NON), terminator kind, type (CON/NON) and position, trailing notifications, whether the callback consumer cancels the observation when it is handed the final response; for block-wise scripts also block size, blocks and last-block length per version, offset of each version change, network delay / repetition per push, moment of an application-side cancellation). "
+    "one case = one observation: (request path raw/default, consumer callback/iteration, first response with/without Observe, sequence of (Observe value, gap, CON/NON), terminator kind, type (CON/NON) and position, trailing notifications, whether the callback consumer cancels the observation when it is handed the final response; for block-wise scripts also block size, blocks and last-block length per version, offset of each version change, network delay / repetition per push, whether a push announces the unchanged representation again, the peer's delay per block request, moment of an application-side cancellation). "
     "Non-trivial = at least one notification was stale/duplicated/reordered or a terminator occurred; distinct = distinct tuples of (path, consumer, value-order pattern, gap classes, terminator, position; block counts, half-millisecond gap classes, cancellation moment, kind of end)"
 )
 ASSUMPTIONS = ["one-way latency 1 ms; datagrams with gap 0 are delivered back-to-back in one event-loop iteration", "OBSERVATION_RESET_TIME is 128 s (default tuning)", "block-wise scripts: a newer representation is announced with a fresher Observe value (staleness there comes from delayed / repeated datagrams only); the peer answers block fetches piggy-backed from the current version"]
 _BASE_MONITORS = {"failure_before_first_response": 4, "late_consumer": 100, "freshness_order": 800, "nothing_fresher_left": 300, "terminal_signal": 800, "after_end_wire": 200, "time_clause_exercised": 20, "clock_consulted": 1, "con_notification_acknowledged": 300, "cancelled_in_callback": 20}
 REQUIRED_MONITORS = {
-    "quick": dict(_BASE_MONITORS, blockwise_observation=300, blockwise_body=800, blockwise_first_assembled=80, blockwise_notification_assembled=150, first_response_assembly_failed=12, notification_assembly_failed_end=15, cancelled_before_first_response=50, cancelled_by_application=70, after_signalled_end_wire=120, con_after_signalled_end=400),
-    "thorough": dict(_BASE_MONITORS, blockwise_observation=30000, blockwise_body=80000, blockwise_first_assembled=8000, blockwise_notification_assembled=15000, first_response_assembly_failed=1500, notification_assembly_failed_end=1500, cancelled_before_first_response=5000, cancelled_by_application=7000, after_signalled_end_wire=10000, con_after_signalled_end=40000),
+    "quick": dict(_BASE_MONITORS, blockwise_observation=300, blockwise_body=800, blockwise_first_assembled=80, blockwise_notification_assembled=150, first_response_assembly_failed=12, notification_assembly_failed_end=15, cancelled_before_first_response=50, cancelled_by_application=70, after_signalled_end_wire=120, con_after_signalled_end=400, push_in_first_transfer_after_cancel=40),
+    "thorough": dict(_BASE_MONITORS, blockwise_observation=30000, blockwise_body=80000, blockwise_first_assembled=8000, blockwise_notification_assembled=15000, first_response_assembly_failed=1500, notification_assembly_failed_end=1500, cancelled_before_first_response=5000, cancelled_by_application=7000, after_signalled_end_wire=10000, con_after_signalled_end=40000, push_in_first_transfer_after_cancel=3000),
 }
-EXHAUSTIVE = {"permutations": "all orders of each base value set (length <= 5) for every consumer/path", "blockwise_mechanisms": "one deterministic block-wise script per (mechanism: change during the first transfer / during a notification's transfer, cancellation before the first response / during its transfer / after it / between / inside deliveries, undisturbed with each terminator) x request path x consumer"}
+EXHAUSTIVE = {"permutations": "all orders of each base value set (length <= 5) for every consumer/path", "blockwise_mechanisms": "one deterministic block-wise script per (mechanism: change during the first transfer / during a notification's transfer, cancellation before the first response / during its transfer / after it / between / inside deliveries, notifications inside the first transfer after a cancellation with a peer slow by 3 ms / 0.5 s per block, undisturbed with each terminator) x request path x consumer"}
 
 VALUE_SETS = [
     [1, 2, 3],
@@ -127,7 +127,8 @@ def random_script(r):
 # answered by a non-block-wise 4.xx, which is the block-wise client's business (C05), not the observation's.
 BW_RACE_GAPS = [0.0, 0.0005, 0.001, 0.0015, 0.002, 0.0025, 0.003, 0.004, 0.005]
 BW_CALM_GAPS = [0.02, 1.0, 1.0, 5.0, 127.9, 128.1]
-BW_FLAVOURS = ["first-race", "first-race", "notif-race", "notif-race", "cancel-before-first", "cancel-before-first", "cancel-later", "free", "free"]
+BW_FLAVOURS = ["first-race", "first-race", "notif-race", "notif-race", "cancel-before-first", "cancel-before-first", "cancel-first-window", "cancel-first-window", "cancel-later", "free", "free"]
+BW_BLOCK_DELAYS = [0.0, 0.003, 0.5]  # how long the peer takes over a block request
 
 
 def bw_script(r, flavour=None, path=None, consumer=None):
@@ -158,13 +159,35 @@ def bw_script(r, flavour=None, path=None, consumer=None):
         if gap > 128 and r.random() < 0.4:
             v = r.randrange(0, 50)  # the counter starts over; fresh by the time clause only
         notifs.append({"v": v, "gap": gap, "type": r.choice(["NON", "CON"]), "blocks": nb, "tail": r.choice(tails), "delay": r.choice([0.0005, 0.002, 0.005]) if r.random() < 0.15 else 0.0, "again": r.choice([0.0005, 0.003, 0.5]) if r.random() < 0.1 else None})
+    block_delay = r.choice(BW_BLOCK_DELAYS) if flavour == "free" and r.random() < 0.3 else 0.0
+    if flavour == "cancel-first-window":
+        # notifications that arrive while the later blocks of the first response are still being fetched (the peer
+        # taking its time over block requests keeps that window open), the application having cancelled by then
+        block_delay = r.choice(BW_BLOCK_DELAYS)
+        first["blocks"] = r.choice([2, 3, 4])
+        window = (first["blocks"] - 1) * (0.002 + block_delay)
+        inside = sorted(r.choice([0.05, 0.2, 0.35, 0.5, 0.65, 0.8, 0.95]) * window for _ in range(r.randrange(1, 4)))
+        head = []
+        v = base
+        for k, at in enumerate(inside):
+            v = (v + 1) % 2**24
+            head.append({"v": v, "gap": at - (inside[k - 1] if k else 0.0), "type": r.choice(["CON", "CON", "NON"]), "blocks": first["blocks"], "tail": r.choice(tails), "delay": 0.0, "again": None, "same": r.random() < 0.6})
+        for nn in notifs:
+            v = (v + 1) % 2**24
+            nn["v"] = v
+            nn["gap"] = max(nn["gap"], 1.0)
+            nn["blocks"] = max(nn["blocks"], first["blocks"])
+        notifs = head + notifs
+        n = len(notifs)
     if flavour == "notif-race" and race_at == n - 1:
         # the change that hits the last scripted transfer is the first trailing notification
         trail_gap = r.choice(BW_RACE_GAPS)
     else:
         trail_gap = 1.0
     cancel = None
-    if flavour == "cancel-before-first":
+    if flavour == "cancel-first-window":
+        cancel = r.choice(["before-first-sync", "before-first-inflight", "first-transfer"])
+    elif flavour == "cancel-before-first":
         cancel = r.choice(["before-first-sync", "before-first-inflight", "first-transfer"])
         if cancel == "first-transfer":
             first["blocks"] = max(first["blocks"], r.choice([2, 3, 4]))
@@ -185,7 +208,7 @@ def bw_script(r, flavour=None, path=None, consumer=None):
         "consumer": consumer,
         "poll": r.choice([0.3, 0.7, 5.0]),
         "first": r.choice([(base - 1) % 2**24] * 6 + [None]) if flavour == "free" else (base - 1) % 2**24,
-        "bw": {"szx": szx, "first": first, "b2_single": r.random() < 0.3, "final": {"blocks": nb if r.random() < 0.5 else 4, "tail": r.choice(tails)}, "t0": 0.0 if flavour == "first-race" or r.random() < 0.2 else 0.5, "trail_gap": trail_gap},
+        "bw": {"szx": szx, "first": first, "b2_single": r.random() < 0.3, "final": {"blocks": nb if r.random() < 0.5 else 4, "tail": r.choice(tails)}, "t0": 0.0 if flavour in ("first-race", "cancel-first-window") or r.random() < 0.2 else 0.5, "trail_gap": trail_gap, "block_delay": block_delay},
         "notifs": notifs,
         "term": term,
         "term_type": r.choice(["NON", "CON"]),
@@ -204,7 +227,7 @@ def bw_special_scripts():
     for path in ("raw", "default"):
         for consumer in ("cb", "iter", "iter-poll"):
             mk = lambda **kw: dict({"class": "bw", "path": path, "consumer": consumer, "poll": 0.7, "first": 10, "term": "none", "term_type": "NON", "term_pos": 0, "term_gap": 1.0, "cancel": None, "cancel_frac": 0.5, "trail": 5, "late": None}, **kw)
-            std = lambda **kw: dict({"szx": 0, "first": {"blocks": 2, "tail": 7}, "b2_single": False, "final": {"blocks": 2, "tail": 16}, "t0": 0.5, "trail_gap": 1.0}, **kw)
+            std = lambda **kw: dict({"szx": 0, "first": {"blocks": 2, "tail": 7}, "b2_single": False, "final": {"blocks": 2, "tail": 16}, "t0": 0.5, "trail_gap": 1.0, "block_delay": 0.0}, **kw)
             N = lambda v, gap, typ, blocks: {"v": v, "gap": gap, "type": typ, "blocks": blocks, "tail": 9, "delay": 0.0, "again": None}
             # the representation changes while the later blocks of the first response are fetched
             for g in (0.0005, 0.0015):
@@ -222,6 +245,10 @@ def bw_special_scripts():
             out.append(mk(flavour="cancel-later", cancel="after-first", bw=std(), notifs=[N(11, 1.0, "CON", 2), N(12, 1.0, "NON", 2)]))
             out.append(mk(flavour="cancel-later", cancel="mid", cancel_frac=0.3, bw=std(), notifs=[N(11, 1.0, "CON", 2), N(12, 1.0, "NON", 2), N(13, 1.0, "CON", 2)]))
             out.append(mk(flavour="cancel-before-first", cancel="first-transfer", cancel_frac=0.0, bw=std(first={"blocks": 3, "tail": 5}), notifs=[N(11, 0.003, "CON", 3), N(12, 1.0, "CON", 3)]))
+            # ... and notifications come in while the later blocks of the first response are still being fetched
+            for c in ("before-first-sync", "before-first-inflight", "first-transfer"):
+                for d, gaps in ((0.003, (0.002, 0.002, 0.003)), (0.5, (0.1, 0.2, 0.3))):
+                    out.append(mk(flavour="cancel-first-window", cancel=c, cancel_frac=0.0, bw=std(t0=0.0, block_delay=d, first={"blocks": 3, "tail": 5}), notifs=[dict(N(11, gaps[0], "CON", 3), same=True), dict(N(12, gaps[1], "NON", 3), same=True), N(13, gaps[2], "CON", 3), N(14, 2.0, "CON", 3)]))
             if consumer == "cb":
                 for typ in ("CON", "NON"):
                     out.append(mk(flavour="cancel-later", cancel="in-callback", cancel_frac=0.4, bw=std(), notifs=[N(11, 1.0, "CON", 2), N(12, 1.0, typ, 2), N(13, 1.0, "CON", 2)]))
@@ -261,10 +288,18 @@ def run_script(sc, seed, rep, case):
         if bw:
             size = 16 << bw["szx"]
 
-            def version(ident, blocks, tail, k):
+            def version(ident, blocks, tail, k, same=False):
+                head = (ident + ":").encode()
+                cur = state.get("cur")
+                if same and cur is not None and not cur["gone"]:
+                    # the representation as it is, announced once more (RFC 7641 section 4.3: a server also notifies when
+                    # the one it sent gets too old): same ETag, same blocks beyond the first (whose first bytes are only
+                    # this harness's label of the datagram)
+                    body = head + cur["body"][-1:] * (len(cur["body"]) - len(head))
+                    bodies[ident] = body
+                    return {"ident": ident, "body": body, "etag": cur["etag"], "gone": False}
                 # (block counts never decrease in the order the versions really come about: equal timers may fire in either order)
                 blocks = state["blocks"] = max(state.get("blocks", 1), blocks)
-                head = (ident + ":").encode()
                 n = (blocks - 1) * size + tail if blocks > 1 else max(tail, len(head))
                 body = head + b"abcdefghijklmnopqrstuvwxyz"[k % 26 : k % 26 + 1] * (n - len(head))
                 bodies[ident] = body
@@ -317,7 +352,10 @@ def run_script(sc, seed, rep, case):
 
         def on_msg(peer, src, m, raw):
             if m is not None and rc.is_request(m.code) and state["token"] is not None and bw:
-                serve_block(peer, src, m)
+                if bw.get("block_delay"):
+                    loop.call_later(bw["block_delay"], serve_block, peer, src, m)  # (a peer that takes its time over block requests)
+                else:
+                    serve_block(peer, src, m)
                 return
             if m is None or not rc.is_request(m.code) or state["token"] is not None:
                 return
@@ -379,6 +417,8 @@ def run_script(sc, seed, rep, case):
             for i in range(len(items) + 1):
                 if sc["term"] != "none" and i == sc["term_pos"]:
                     t += sc["term_gap"]
+                    if sc["term"] == "final-4.04":
+                        t += 4 * (0.002 + bw.get("block_delay", 0.0))  # (... however long the peer takes over a block request: see below)
                     if sc["term"] == "icmp":
                         # (not ahead of the first response, which is 1 ms away: that is the no-first class)
                         net.inject_error(C, P, 111, delay=max(t, 0.00125))
@@ -394,7 +434,7 @@ def run_script(sc, seed, rep, case):
                     ident, n = items[i]
                     t += n["gap"]
                     k += 1
-                    loop.call_later(t, send_notif, peer, ident, n["v"], n["type"], rc.c(2, 5), "notif", (ident, n["blocks"], n["tail"], k), n["delay"], n["again"])
+                    loop.call_later(t, send_notif, peer, ident, n["v"], n["type"], rc.c(2, 5), "notif", (ident, n["blocks"], n["tail"], k, bool(n.get("same"))), n["delay"], n["again"])
             for j in range(sc["trail"]):
                 t += 1.0 if j else bw["trail_gap"]
                 k += 1
@@ -643,6 +683,14 @@ def judge(sc, box, res, rep, case):
             rep.monitor("cancelled_by_application")
             if cancel["before_first"]:
                 rep.monitor("cancelled_before_first_response")
+                if sc["path"] == "default" and arrivals and arrivals[0]["kind"] == "first" and arrivals[0]["more"]:
+                    # notifications that came in after the application's cancel while the later blocks of the first
+                    # response were still being fetched (judged below like everything after an end: the cancel has a
+                    # definite position in the wire log, nothing around it is left open)
+                    inside = [a for a in arrivals if a["kind"] in ("notif", "trail", "final") and cancel["seq"] <= a["seq"] < box["first_x"][0]]
+                    if inside:
+                        rep.monitor("push_in_first_transfer_after_cancel", len(inside))
+                        rep.count("scripts_with_push_in_first_transfer_after_cancel")
         # the first response cannot be put together
         if box["first"][0] == "exception" and sc["path"] == "default" and is_assembly_error(box["first"][2]):
             tr = transfer_before(box["first_x"][0], [a for a in arrivals if a["kind"] == "first"])
@@ -650,10 +698,10 @@ def judge(sc, box, res, rep, case):
                 first_failed = True
                 rep.monitor("first_response_assembly_failed")
                 when = min([box["first_x"][0]] + box["term_seq"][:1])
-                if cancel and cancel["seq"] <= tr[0]:
+                if cancel and cancel["seq"] <= tr[0] and cancel["seq"] - 0.5 < end_seq:
                     # (given up before that already; what keeps the observation on the wire is the failed transfer)
                     sig_end = ("first-response-assembly-failed", cancel["seq"] - 0.5, cancel["seq"] - 0.5)
-                elif when - 0.5 < end_seq:
+                elif not (cancel and cancel["seq"] <= tr[0]) and when - 0.5 < end_seq:
                     sig_end = ("first-response-assembly-failed", when - 0.5, tr[0])
                 elif end_kind in ("final", "icmp"):
                     assembly_overtakes_end = True  # (the peer or the transport had ended it already, the application hears of the failed transfer instead)
